@@ -791,6 +791,19 @@ def _inline_single_use_temps(fn) -> bool:
                                 elif isinstance(val, list) and any(y is first_nontrivial for y in val):
                                     val[[y is first_nontrivial for y in val].index(True)] = v
                                     ok = True
+                # boolean temporary: `t = <condition>` followed by `if t:` / `if not t:` (t used nowhere else)
+                if not ok and isinstance(a, (ast.Assign, ast.AnnAssign)) and getattr(a, "value", None) is not None and isinstance(b, ast.If):
+                    tg = a.targets[0] if isinstance(a, ast.Assign) and len(a.targets) == 1 else (a.target if isinstance(a, ast.AnnAssign) else None)
+                    v = a.value
+                    if isinstance(tg, ast.Name) and uses.get(tg.id, 0) == 2 and isinstance(v, (ast.BoolOp, ast.Compare, ast.UnaryOp)) \
+                            and not any(isinstance(x, (ast.Await, ast.Yield, ast.YieldFrom, ast.NamedExpr, ast.Lambda)) for x in ast.walk(v)):
+                        t = b.test
+                        if isinstance(t, ast.Name) and t.id == tg.id:
+                            b.test = v
+                            ok = True
+                        elif isinstance(t, ast.UnaryOp) and isinstance(t.op, ast.Not) and isinstance(t.operand, ast.Name) and t.operand.id == tg.id:
+                            t.operand = v
+                            ok = True
                 if ok:
                     del blk[i]
                     changed = True
